@@ -281,6 +281,21 @@ def representable(v, t):
     return n.bit_length() <= FT[t][1] and d.bit_length() < 60 and abs(v) < 2 ** 60
 
 
+def round_to(v, bits):
+    """v rounded to a binary floating value with `bits` significant bits, ties to even (normal range only)"""
+    v = Fraction(v)
+    if v == 0: return v
+    sg, a = (1 if v > 0 else -1), abs(v)
+    e = a.numerator.bit_length() - a.denominator.bit_length()
+    if Fraction(2) ** e > a: e -= 1
+    scale = Fraction(2) ** (e - bits + 1)
+    q = a / scale
+    n = q.numerator // q.denominator
+    rem = q - n
+    if rem > Fraction(1, 2) or (rem == Fraction(1, 2) and n % 2 == 1): n += 1
+    return sg * n * scale
+
+
 def fusual(t1, t2):
     if isf(t1) or isf(t2):
         c = [t for t in (t1, t2) if isf(t)]
@@ -381,7 +396,7 @@ static ull chk = 1469598103934665603ULL;
 static void mix (ull v) { chk = (chk ^ v) * 1099511628211ULL; }
 #define PS(tag, x) do { ll v_ = (ll) (x); mix ((ull) v_); printf ("%s %lld\n", tag, v_); } while (0)
 #define PU(tag, x) do { ull v_ = (ull) (x); mix (v_); printf ("%s %llu\n", tag, v_); } while (0)
-#define PF(tag, x) do { long double v_ = (long double) (x); mix ((ull) (ll) (v_ * 64.0L)); printf ("%s %La\n", tag, v_); } while (0)
+#define PF(tag, x) do { long double v_ = (long double) (x); mix ((ull) (ll) (v_ > 1e15L || v_ < -1e15L ? v_ / 1048576.0L : v_ * 64.0L)); printf ("%s %La\n", tag, v_); } while (0)
 #define TYPEID(x) _Generic ((x), _Bool: 0, char: 1, signed char: 2, unsigned char: 3, short: 4, \
   unsigned short: 5, int: 6, unsigned int: 7, long: 8, unsigned long: 9, long long: 10, \
   unsigned long long: 11, default: 99)
@@ -1206,6 +1221,52 @@ class Gen:
                 glob.append("enum { %s_e%d = %s };" % (name, i, ic))
                 body.append('  PS ("%s.ie", %s_e%d);' % (tag, name, i))
                 expect[tag + ".ie"] = iv
+        # constants that are NOT representable in float, converted to float and used further at compile time
+        for i in range(4):
+            tag = "%s.r%d" % (name, i)
+            c = r.below(4)
+            if c == 0:
+                txt = r.choice(["0.1", "0.3", "1e-3", "2.7182818284590452", "123456.789", "0.7", "1e10", "3.3e5", "0.2"])
+                C = Fraction(float(txt)); st = "double"
+            elif c == 1:
+                m = (r.next() >> (64 - 30 - r.below(22))) | 1
+                C = Fraction(m, 1 << r.below(31)) * r.choice([1, -1]); st = "double"; txt = flit("double", C)
+            elif c == 2:
+                st = r.choice(["int", "long", "llong", "ulong", "uint"])
+                iv = ((1 << (24 + r.below(min(30, width(st) - 26)))) | (r.next() & 0xffffff) | 1) * (r.choice([1, -1]) if signed(st) else 1)
+                C = Fraction(conv(st, iv)); txt = clit(st, conv(st, iv))
+            else:
+                m = (r.next() >> 12) | 1
+                C = Fraction(m, 1 << (52 - r.below(40))); st = "ldouble"; txt = flit("ldouble", C)
+            F = round_to(C, 24)
+            small = abs(F) < 2 ** 30
+            eqf = 1 if not isf(st) else int(F == C)               # (float) C == C: an integer C is converted to float
+            nef = int(F != (round_to(C, 53) if not isf(st) else C))    # (double) (float) C != C: an integer C to double
+            glob.append("static volatile %s %s_rv%d = %s;" % (xspell(st), name, i, txt))
+            glob.append("static double %s_rd%d = (float) %s; static float %s_rf%d = %s; static long double %s_rl%d = (float) %s; static double %s_rs%d = (float) %s + 0.0;"
+                        % (name, i, txt, name, i, txt, name, i, txt, name, i, txt))
+            glob.append("static long long %s_rq%d = (long long) (float) %s; static double %s_rc%d = (float) (double) (float) %s; enum { %s_re%d = ((float) %s == %s), %s_rn%d = ((double) (float) %s != %s) };"
+                        % (name, i, txt, name, i, txt, name, i, txt, txt, name, i, txt, txt))
+            body.append('  PF ("%s.d", %s_rd%d); PF ("%s.f", %s_rf%d); PF ("%s.l", %s_rl%d); PF ("%s.s", %s_rs%d); PS ("%s.q", %s_rq%d); PF ("%s.cc", %s_rc%d); PS ("%s.e", %s_re%d); PS ("%s.n", %s_rn%d);'
+                        % (tag, name, i, tag, name, i, tag, name, i, tag, name, i, tag, name, i, tag, name, i, tag, name, i, tag, name, i))
+            for sfx, val in ((".d", F), (".f", F), (".l", F), (".s", F), (".q", int(F)), (".cc", F), (".e", eqf), (".n", nef)):
+                expect[tag + sfx] = val
+            body.append('  PF ("%s.o1", (float) %s); PF ("%s.o2", (float) %s + 0.0); PS ("%s.o3", (float) %s == %s); PF ("%s.o4", (double) (float) %s * 2); PF ("%s.o5", -(float) %s); PS ("%s.o6", (long long) (float) %s);'
+                        % (tag, txt, tag, txt, tag, txt, txt, tag, txt, tag, txt, tag, txt))
+            body.append('  PF ("%s.r1", (float) %s_rv%d); PF ("%s.r2", (float) %s_rv%d + 0.0); PS ("%s.r3", (float) %s_rv%d == %s_rv%d); PS ("%s.r6", (long long) (float) %s_rv%d); { float lf_ = %s; double ld_ = (float) %s; PF ("%s.a1", lf_); PF ("%s.a2", ld_); }'
+                        % (tag, name, i, tag, name, i, tag, name, i, name, i, tag, name, i, txt, txt, tag, tag))
+            for sfx, val in ((".o1", F), (".o2", F), (".o3", eqf), (".o4", 2 * F), (".o5", -F), (".o6", int(F)),
+                             (".r1", F), (".r2", F), (".r3", eqf), (".r6", int(F)), (".a1", F), (".a2", F)):
+                expect[tag + sfx] = val
+            glob.append("static char %s_ra%d[((long long) (float) %s & 7) + 1];" % (name, i, txt))
+            body.append('  PS ("%s.a", (int) sizeof (%s_ra%d)); switch ((int) ((long long) (float) %s_rv%d & 3)) { case (int) ((long long) (float) %s & 3): PS ("%s.c", 1); break; default: PS ("%s.c", 0); }'
+                        % (tag, name, i, name, i, txt, tag, tag))
+            expect[tag + ".a"] = (int(F) & 7) + 1
+            expect[tag + ".c"] = 1
+            if small:
+                glob.append("enum { %s_ri%d = (int) (float) %s };" % (name, i, txt))
+                body.append('  PS ("%s.i", %s_ri%d);' % (tag, name, i))
+                expect[tag + ".i"] = int(F)
         text = "\n".join(glob) + "\nstatic void %s (void) {\n%s\n}\n" % (name, "\n".join(body))
         return {"name": name, "kind": "fcexpr", "text": text, "expect": expect, "lean": [], "info": ""}
 
@@ -1568,7 +1629,7 @@ class Gen:
         r = self.r
         name = self.uname()
         glob, body = [], []
-        kinds = []
+        kinds, inl = [], []
         for i, (nm, mem) in enumerate((("b", r.choice(["long x, y, z;", "long x; int y; long z; char q; long t;", "double x; long y, z;", "int v[7]; long y, z;", "long x, y, z, t, u, w, q;"])),
                                        ("m", r.choice(["long x, y;", "int x; long y; int z;", "double x; long y;"])),
                                        ("s", r.choice(["int x, y;", "char x; short y; char z;", "int y; float x;"])))):
@@ -1579,6 +1640,11 @@ class Gen:
             glob.append("static %s %s_mk%s (long a, long b) { %s r_; memset (&r_, 0, sizeof (r_)); r_.%s = a; r_.y = b + %d; return r_; }" % (S, name, nm, S, first, i))
             glob.append("static long %s_dot%s (%s p, %s q) { return (long) p.%s * 3 + (long) q.%s * 5 + (long) p.y * 7 + (long) q.y * 11; }" % (name, nm, S, S, first, first))
             glob.append("static %s %s_add%s (%s p, %s q) { %s r_ = p; r_.%s = p.%s + q.%s; r_.y = p.y - q.y; return r_; }" % (S, name, nm, S, S, S, first, first, first))
+            # the same without any call inside (inlinable at -O2): initialiser list, direct member use
+            if "v[7]" not in mem:
+                glob.append("static %s %s_in%s (long v) { %s r_ = { v, %s }; return r_; }" % (S, name, nm, S, "-v" if nm == "s" else "v * 10"))
+                glob.append("static long %s_df%s (%s p, %s q) { return (long) (p.%s - q.%s) * 1000 + (long) (p.y - q.y); }" % (name, nm, S, S, first, first))
+                inl.append(nm)
             kinds.append((nm, S, first))
         glob.append("static long %s_mix (struct %s_b p, struct %s_s q, double d, struct %s_m u, struct %s_b v, int n) { return (long) p.y * 2 + (long) q.y * 3 + (long) (d * 2) + (long) u.y * 5 + (long) v.y * 7 + n; }"
                     % (name, name, name, name, name))
@@ -1594,6 +1660,18 @@ class Gen:
             return "%s_add%s (%s, %s_mk%s (%s_dot%s (%s, %s), 1))" % (name, nm, mk(nm, depth - 1), name, nm, name, nm, mk(nm, 0), mk(nm, 0))
 
         n = 0
+        # small callers (MIR inlines only into functions of < 200 insns): results of different struct types one
+        # after the other, the inlined callees' frames overlay each other
+        for wk in range(4):
+            if "C07:gvn-load-alias" in AVOID: break
+            order = [r.choice(inl) for _ in range(2 + r.below(3))] if inl else []
+            if not order: break
+            terms = ["%s_df%s (%s_in%s (%s), %s_in%s (%s))" % (name, nm, name, nm, r.choice(["a", "9", "b + 1"]), name, nm, r.choice(["c", "4", "a - 2"]))
+                     for nm in order]
+            lines = ["  long r%d = %s;" % (i, t) for i, t in enumerate(terms)]
+            glob.append("static long %s_w%d (long a, long b, long c) {\n%s\n  return %s;\n}" % (
+                name, wk, "\n".join(lines), " + ".join("r%d * %d" % (i, 3 + 2 * i) for i in range(len(terms)))))
+            body.append('  PS ("%s.w%d", %s_w%d (a, b, c));' % (name, wk, name, wk))
         for nm, S, first in kinds:
             for _ in range(4 if nm == "b" else 2):
                 body.append('  PS ("%s.%s.%d", %s_dot%s (%s, %s));' % (name, nm, n, name, nm, mk(nm, 2), mk(nm, 2))); n += 1
